@@ -289,6 +289,45 @@ func tower(a *towerArgs) []byte {
 	return out
 }
 
+// sibArgs: an object whose names total more than the namespace's linear-search limits, followed by
+// sibling objects at the same depth that use some of the same names again (valid) or twice (invalid).
+type sibArgs struct {
+	Members int    `json:"members"`
+	NameLen int    `json:"name_len"`
+	Reuse   int    `json:"reuse"`
+	Layout  string `json:"layout"` // "array" | "stream" | "members" | "nested"
+	Dup     bool   `json:"dup"`    // the later sibling carries the reused name twice
+}
+
+func sibText(a *sibArgs) []byte {
+	var big strings.Builder
+	big.WriteByte('{')
+	names := make([]string, a.Members)
+	for i := range names {
+		names[i] = strings.Repeat("n", max(0, a.NameLen-5)) + fmt.Sprintf("%05d", i)
+		if i > 0 {
+			big.WriteByte(',')
+		}
+		fmt.Fprintf(&big, "%q:%d", names[i], i)
+	}
+	big.WriteByte('}')
+	re := names[a.Reuse%len(names)]
+	small := fmt.Sprintf("{%q:1,\"other\":2}", re)
+	if a.Dup {
+		small = fmt.Sprintf("{%q:1,\"other\":2,%q:3}", re, re)
+	}
+	b := big.String()
+	switch a.Layout {
+	case "stream":
+		return []byte(b + " " + small + "\n" + small + b)
+	case "members":
+		return []byte(`{"x":` + b + `,"y":` + small + `,"z":` + small + `,"w":` + b + `}`)
+	case "nested":
+		return []byte(`[[` + b + `],[` + small + `],{"k":[` + small + `]}]`)
+	}
+	return []byte("[" + b + "," + small + "," + small + "," + b + "]")
+}
+
 func nsText(a *nsArgs) []byte {
 	names := make([]string, a.Members)
 	for i := range names {
@@ -421,6 +460,10 @@ func selfTest() error {
 func main() {
 	run.Def(M, "text", func(w *run.W, a *textArgs) { checkText(w, a.Text, true) })
 	run.Def(M, "block", enumerate)
+	run.Def(M, "siblings", func(w *run.W, a *sibArgs) {
+		checkText(w, sibText(a), true)
+		w.Count("sibling_texts", 1)
+	})
 	run.Def(M, "tower", func(w *run.W, a *towerArgs) {
 		checkText(w, tower(a), true)
 		w.Count("towers", 1)
@@ -498,6 +541,17 @@ func generate(w *run.W) {
 			}
 		}
 	}
+	for _, sh := range [][2]int{{3, 600}, {5, 250}, {10, 120}, {40, 30}, {64, 17}, {65, 8}, {70, 5}, {130, 5}, {2, 5}} {
+		for _, reuse := range []int{0, sh[0] / 2, sh[0] - 1} {
+			for _, layout := range []string{"array", "stream", "members", "nested"} {
+				for _, dup := range []bool{false, true} {
+					if mine() {
+						w.Do("siblings", &sibArgs{Members: sh[0], NameLen: sh[1], Reuse: reuse, Layout: layout, Dup: dup})
+					}
+				}
+			}
+		}
+	}
 	for _, members := range []int{2, 8, 16, 31, 32, 33, 55, 60, 63, 64, 65, 66, 70, 75, 100, 130} {
 		for _, nameLen := range []int{4, 16, 40} {
 			for _, spell := range []string{"same", "escaped", "invalid"} {
@@ -505,7 +559,14 @@ func generate(w *run.W) {
 				if !w.Thorough() && members > 16 {
 					step = 7
 				}
-				for dupAt := 0; dupAt < members; dupAt += step {
+				for dupAt := 0; dupAt < members; dupAt++ {
+					// quick: every 7th member, plus the members around the two points where the name set of an
+					// object changes its representation (more than 64 names, more than 1 KiB of names)
+					kib := 1024 / nameLen
+					critical := (dupAt >= 62 && dupAt <= 68) || (dupAt >= kib-2 && dupAt <= kib+2)
+					if dupAt%step != 0 && !critical {
+						continue
+					}
 					for _, insAt := range []int{0, dupAt, dupAt + 1, members / 2, members - 1, members} {
 						if mine() {
 							w.Do("namespace", &nsArgs{Members: members, NameLen: nameLen, DupAt: dupAt, InsAt: insAt, Spell: spell, Nested: (dupAt+insAt)%2 == 1})
